@@ -18,6 +18,9 @@ N = {'quick': dict(seq=1000, race=4000, f13=2000, jthr=600, intr=300, rejoin=300
      'thorough': dict(seq=6000, race=30000, f13=12000, jthr=4000, intr=2000, rejoin=3000, jmove=12000)}
 
 
+LATE_ABORT_KEY = 'C13:rejoin:late_abort_wakeup_throws_yield_aborted'
+
+
 def kv(line):
     return dict(x.split('=', 1) for x in line.split(' ')[3:] if '=' in x)
 
@@ -42,6 +45,17 @@ def run_mode(ctx, r, h, drv, mode, seed, n, timeout):
         r.evaluations += 1
         return
     for x in hang:
+        if mode == 'rejoin' and 'yield returned wait_abort' in out:
+            # observed ~1 per 3000 rejoin cases on the unchanged tree: the joiner thread was ended by yield_aborted
+            r.hits.append(Hit('monitor', LATE_ABORT_KEY,
+                              'a joiner that had caught thread_interrupted (delivered at an interruption point) and called join() again was ended by '
+                              'pika::exception yield_aborted: the wake-up of that same interrupt() (set_thread_state(pending, wait_abort), issued while the '
+                              'joiner was still active and therefore retried later) reached the NEXT suspension, whose interruption point finds the request '
+                              'already consumed, so execution_agent::do_yield throws yield_aborted instead of thread_interrupted; it escapes the '
+                              'catch (thread_interrupted) handler, the runtime ends the thread function ("aborted thread execution") and the harness waits '
+                              'for the joiner in vain (watchdog 30 s): %s | %s' % (x, [l for l in lines if 'wait_abort' in l][-1][:200]),
+                              dict(rep, case=x)))
+            continue
         r.hits.append(Hit('monitor', 'C13:%s:hang' % mode,
                           'a join / jthread destructor / interrupted thread did not finish within the watchdog bound (30 s): %s' % x,
                           dict(rep, case=x)))
@@ -205,7 +219,7 @@ def run_jmove(ctx, r, h, workers, seed, n, timeout, only=None):
                                   'a jthread whose handle was moved (%s, %s after construction, %s workers) and whose final owner was destroyed: %s function saw '
                                   'stop_possible()=%s on its token at its first statement, stop_requested()=%s when it left its wait, the destructor %s: %s'
                                   % (kind, fi.get('when'), fi.get('workers'), who, f.get('possible' + sfx), f.get('saw' + sfx),
-                                     'returned' if f.get('dtor_returned') == '1' else 'did NOT return within 4 s (function released by the give-up flag)', o_), rep))
+                                     'returned' if f.get('dtor_returned') == '1' else 'did NOT return within 10 s (function released by the give-up flag)', o_), rep))
                 break
         if f.get('dtor_returned') == '1' and (f.get('finished_at_return') != '1' or f.get('finished_at_return2', '1') != '1'):
             r.hits.append(Hit('monitor', 'C13:jthread:dtor_returned_before_body_finished:after_move:%s' % kind,
@@ -243,7 +257,7 @@ def run(ctx):
               'waits for it (poll+yield / condition_variable_any::wait(lock, token, pred) / stop_callback); the handle is moved (move ctor, move assign '
               'into an empty jthread, vector push_back + reallocation, swap with an empty / with another running jthread, return by value, '
               'ctor->heap->assign chain) immediately after construction or after the function started; the final owner is destroyed; monitors: '
-              'token stop_possible at the first statement, stop seen, destructor returns (4 s watchdog) after the function finished, no stop before the '
+              'token stop_possible at the first statement, stop seen, destructor returns (10 s watchdog) after the function finished, no stop before the '
               'owner dies, handle state after the move = sequential spec. non-trivial = callback accepted (join had to wait) or any seq/jthr/intr case; distinct = distinct (mode,seed,case,events)')
     ctx.build_pika()
     drv = ctx.build_model('C13', 'ExtractC13.v', 'drv_c13.ml')
